@@ -580,16 +580,16 @@ func (g *gen) execAppend(fr *frame, cur *node, st *State, c *ssa.CallCommon, pos
 		newM := g.svFresh(st, lm.name, lm.sort)
 		// everything not in the fresh array is unchanged
 		cur.assume(fmt.Sprintf("(forall ((r Ref)) (! (=> (not (= (rootid r) %s)) (= (select %s r) (select %s r))) :pattern ((select %s r))))", nb, newM, oldM, newM))
-		src := func(base, off, i string) string {
-			return refPath(app("elem", base, app("+", off, i)), lm.path)
+		src := func(sl, i string) string {
+			return refPath(app("eref", sl, i), lm.path)
 		}
-		dst := func(i string) string { return refPath(app("elem", nb, i), lm.path) }
+		dst := func(i string) string { return refPath(app("eref", r, i), lm.path) }
 		cur.assume(fmt.Sprintf("(forall ((ai Int)) (! (=> (and (<= 0 ai) (< ai %s)) (= (select %s %s) (select %s %s))) :pattern ((select %s %s))))",
-			ls, newM, dst("ai"), oldM, src(app("sbase", s), app("soff", s), "ai"), newM, dst("ai")))
+			ls, newM, dst("ai"), oldM, src(s, "ai"), newM, dst("ai")))
 		cur.assume(fmt.Sprintf("(forall ((ai Int)) (! (=> (and (<= 0 ai) (< ai %s)) (= (select %s %s) (select %s %s))) :pattern ((select %s %s))))",
-			lt, newM, dst(app("+", ls, "ai")), oldM, src(app("sbase", t), app("soff", t), "ai"), newM, dst(app("+", ls, "ai"))))
+			lt, newM, dst(app("+", ls, "ai")), oldM, src(t, "ai"), newM, dst(app("+", ls, "ai"))))
 		// the common single-element case, stated without a quantifier
-		cur.assume(implies(app("=", lt, "1"), app("=", app("select", newM, dst(ls)), app("select", oldM, src(app("sbase", t), app("soff", t), "0")))))
+		cur.assume(implies(app("=", lt, "1"), app("=", app("select", newM, dst(ls)), app("select", oldM, src(t, "0")))))
 	}
 	g.used["assume:append-reallocates(no capacity aliasing)"] = true
 	return r
